@@ -1,5 +1,11 @@
 #!/usr/bin/env bash
-# tools/run_all_seeded.sh "<id> <PROP>" ...   (or reads pairs from seeded/targets.txt)
-# Runs the given (seeded change, property) pairs, 4 at a time; prints one verdict line each.
+# tools/run_all_seeded.sh ["<id> <PROP>" ...]    (default: every line of seeded/targets.txt)
+# Runs (seeded change, property) pairs, PAR at a time (default 4), one verdict line each;
+# removes the slots' build caches afterwards.
 cd /verif
-if [ $# -gt 0 ]; then printf '%s\n' "$@"; else cat seeded/targets.txt; fi | grep -v '^#' | xargs -P ${PAR:-4} -L1 sh -c 'VERIF_JOBS=${VERIF_JOBS:-4} VERIF_BUDGET_S=${VERIF_BUDGET_S:-15} tools/run_seeded.sh $0 $1 2>&1 | tail -1'
+PAR=${PAR:-4}
+if [ $# -gt 0 ]; then printf '%s\n' "$@"; else grep -v '^#' seeded/targets.txt; fi | awk -v par=$PAR '{print (NR % par) " " $0}' \
+  | xargs -P $PAR -L1 sh -c 'SLOT=$0 VERIF_JOBS=${VERIF_JOBS:-4} VERIF_BUDGET_S=${VERIF_BUDGET_S:-15} tools/run_seeded.sh $1 $2 2>&1 | tail -1'
+for s in $(seq 0 $((PAR-1))); do
+  KEY=$(printf '%s' "/tmp/rs-slot-$s" | cksum | cut -d' ' -f1); rm -rf "/verif/build/$KEY" "/tmp/rs-lock-$s"
+done
